@@ -90,6 +90,9 @@ func (e *Encoder) Bytes() ([]byte, error) {
 	if e.mode == modeInitial {
 		e.appendDefaultMetadata()
 	}
+	// Drawing ops are buffered so that runs can be merged. Write out what is
+	// still pending, or a graphic that ends inside a path loses its last run.
+	e.flushDrawOps()
 	return []byte(e.buf), nil
 }
 
